@@ -19,6 +19,7 @@ import tempfile
 import time
 
 VERIF = os.path.dirname(os.path.dirname(os.path.abspath(__file__)))
+BASE = os.environ.get('VP_RUN_REPO') or os.environ.get('SEEDED_REPO') or '/repo'     # the unchanged tree
 
 
 def sh(cmd, **kw):
@@ -30,11 +31,11 @@ def run_one(d, args):
     scratch = tempfile.mkdtemp(prefix='picoseed_', dir='/tmp')
     res = {'id': os.path.basename(d), 'property': meta['property']}
     try:
-        shutil.copytree('/repo/pico8', os.path.join(scratch, 'pico8'))
-        shutil.copytree('/repo/tests', os.path.join(scratch, 'tests'))
+        shutil.copytree(BASE + '/pico8', os.path.join(scratch, 'pico8'))
+        shutil.copytree(BASE + '/tests', os.path.join(scratch, 'tests'))
         for f in ('setup.py', 'README.md'):
-            if os.path.exists('/repo/' + f):
-                shutil.copy('/repo/' + f, scratch)
+            if os.path.exists(BASE + '/' + f):
+                shutil.copy(BASE + '/' + f, scratch)
         r = sh(['patch', '-p1', '--no-backup-if-mismatch', '-i', os.path.join(d, 'patch.diff')], cwd=scratch)
         if r.returncode != 0:
             res['error'] = 'patch does not apply: ' + r.stdout[-200:]
@@ -45,7 +46,7 @@ def run_one(d, args):
             res['tests_pass'] = r.returncode == 0
             demo = os.path.join(d, meta.get('demo', 'demo.py'))
             r1 = sh(['/venv/bin/python', demo], env=dict(os.environ, PYTHONPATH=scratch), cwd='/tmp')
-            r0 = sh(['/venv/bin/python', demo], env=dict(os.environ, PYTHONPATH='/repo'), cwd='/tmp')
+            r0 = sh(['/venv/bin/python', demo], env=dict(os.environ, PYTHONPATH=BASE), cwd='/tmp')
             res['demo_fails_with_change'] = r1.returncode != 0
             res['demo_passes_without'] = r0.returncode == 0
         props = args.props.split(',') if args.props else meta.get('check_with', [meta['property']])
